@@ -43,7 +43,7 @@ def observe(spec, inp):
                 arr = pnd.boolean_ndarray([[inp["e%d_%d" % (i, j)] for j in range(n)] for i in range(2)], variables=vs)
                 out["res"] = [[str(v.id) for v in r] for r in arr.to_list()]
         elif part == "from_list":
-            cands = list(reversed(ids)) + ["__unknown__"]
+            cands = [ids[-1], "__unknown__"] + list(reversed(ids[:-1])) + ["__other__"]
             cls = pnd.boolean_ndarray if spec["cls"] == "boolean" else pnd.integer_ndarray
             groups = 2 if spec["nested"] else 1
             lsts = [[c for k, c in enumerate(cands) if inp["f%d_%d" % (g, k)]] for g in range(groups)]
